@@ -64,7 +64,31 @@ def add_gadgets(rng, m):
         return m["n"] - 1
     kind = rng.random()
     base = F(rng.randint(-3, 0 if nonpos else 3))
-    if kind < .15:
+    if kind < .1:
+        # (e) tiny-probability branch that matters: w.p. 2^-k (k >= 27, below isclose's atol) the action ends in a
+        # fresh absorbing state with a reward of magnitude ~2^k; a second action is a plain alternative
+        k = rng.choice([27, 30, 34, 40])
+        j = new_state([0]); m["absorbing"][j] = True
+        m["trans"]["%d,0" % j] = [[j, "1"]]
+        s = new_state([0, 1])
+        big = F(2 ** k) * rng.choice([-1, -3] if nonpos else [-3, -1, 2, 5])
+        m["trans"]["%d,0" % s] = [[tgt, str(1 - F(1, 2 ** k))], [j, str(F(1, 2 ** k))]]
+        m["reward"]["%d,0,%d" % (s, j)] = str(big)
+        m["trans"]["%d,1" % s] = [[tgt, "1"]]
+        m["reward"]["%d,1,%d" % (s, tgt)] = str(F(rng.randint(-2, 0 if nonpos else 2)))
+        m["init"] = [[x, str(F(p) * (1 - F(1, 2 ** 30)))] for x, p in m["init"]] + [[s, str(F(1, 2 ** 30))]]
+    elif kind < .2:
+        # (f) corridor: a chain of L states (L + n not a power of two, up to 9 steps) whose only way on is forward,
+        # ending in the target: reachability of an absorbing state needs paths of that length
+        L = rng.choice([5, 6, 7, 9])
+        prev = tgt
+        for _ in range(L):
+            c = new_state([0])
+            m["trans"]["%d,0" % c] = [[prev, "1"]] if rng.random() < .7 else [[prev, "1/2"], [c, "1/2"]]
+            m["reward"]["%d,0,%d" % (c, prev)] = str(F(rng.randint(-2, -1)))
+            prev = c
+        m["init"] = [[x, str(F(p) / 2)] for x, p in m["init"]] + [[prev, "1/2"]]
+    elif kind < .3:
         # (d) implicit absorbing state (certain zero-reward self-loops, NOT flagged) whose rows also LIST an
         # impossible successor (probability 0) that carries a non-zero reward: still absorbing; a state
         # whose only way to terminate is through it (decides the placeholder mask at discount 1)
@@ -76,7 +100,7 @@ def add_gadgets(rng, m):
         m["trans"]["%d,0" % s] = [[g_, "1/2"], [s, "1/2"]]
         m["reward"]["%d,0,%d" % (s, g_)] = str(F(rng.randint(-3, -1)))
         m["init"] = [[x, str(F(p) / 2)] for x, p in m["init"]] + [[s, "1/2"]]
-    elif kind < .3:
+    elif kind < .4:
         # (c) boundary of the implicit-absorbing rule: zero-reward state whose every action self-loops with
         # probability 1 - 2^-k (NOT absorbing), escaping to a state of non-zero value
         k = rng.choice([10, 17, 20, 30])
@@ -170,14 +194,16 @@ def gen_case(rng, tier):
         nb = m["n"] if (rng.random() < .4 and m["n"] >= 2) else rng.choice([2, 3, 4])
         pos = rng.randrange(nb)
         gs = ["1"] if F(m["gamma"]) == 1 else ["1/2", "3/4", "9/10", "1/5", "19/20"]
+        if F(m["gamma"]) < 1 and all(F(v) <= 0 for v in m["reward"].values()):
+            gs = gs + ["1", "1", "1"]          # mixed batches: undiscounted problems (given with an int 1) next to discounted ones
         # half of the other problems carry NEGATED state and action labels (-s-1, -a-1): their sorted state and
         # action lists are different objects in a different order, so results must be labelled per problem
         batch = {"variants": [None if k == pos else {"scale": rng.choice(["2", "3", "1/2", "5"]), "gamma": rng.choice(gs),
-                                                      "negated_labels": rng.random() < .5}
+                                                      "negated_labels": rng.random() < .5, "int_gamma": rng.random() < .7}
                               for k in range(nb)]}
     return {"mdp": m, "max_residual": eps, "max_iterations": mi, "batch": batch,
             "undefined_value": rng.choice(["0", "-7", "-inf", "-inf"] if gamma == "1" else ["0", "0", "-7", "-inf"]),
-            "explicit_lists": rng.random() < .3,
+            "explicit_lists": rng.random() < .3, "actions_shared_list": rng.random() < .3, "int_gamma": rng.random() < .5,
             "action_order": rng.choice(["sorted", "sorted", "desc", "shuffled"]), "action_order_seed": rng.randrange(10**6)}
 
 
